@@ -167,7 +167,7 @@ fn main() {
     for (site, full, depth) in plans {
         let alpha = alphabet(&keys, &vals, full);
         for (pi, prefix) in prefixes.iter().enumerate() {
-            if depth >= 4 && pi >= 3 { continue; }
+            if depth >= 4 && (pi == 1 || pi == 3) { continue; }
             let mut idx = vec![0usize; depth];
             loop {
                 let mut ops: Vec<String> = prefix.iter().map(|s| s.to_string()).collect();
